@@ -17,9 +17,9 @@ C_VERDICT = "fun i o => parse_verdict cfg (snd i) o"
 C_SPEC = "fun i o => C14_spec (fst i) o"
 
 JUNK = {
-    "sync": ["garbage", "0 = N 0 0", "0 = S 2 5", '0 = E "section x"', "0 = B", "0 = TS", "0 = A 5 ", "", "   ", "0 = B 12.5", "Name = \"x\"", "0 = TS 4 2 1", "歌", "0 = E solo"],
-    "events": ["garbage", "0 = N 0 0", "0 = B 120000", "0 = TS 4", '0 = E "a"b"', "0 = E solo", "0 = E \"", "", "  ", "歌 = E \"x\"", "0 = S 2 0"],
-    "instr": ["garbage", "0 = N 8 0", "10 = S 64 5", "10 = S 0 5", "10 = S 1 5", "0 = B 120000", "0 = TS 4", '0 = E "section x"', "5 = E two words", "", "  ", "0 = N 0", "歌", "0 = A 5"],
+    "sync": ["  {", "} ", "garbage", "0 = N 0 0", "0 = S 2 5", '0 = E "section x"', "0 = B", "0 = TS", "0 = A 5 ", "", "   ", "0 = B 12.5", "Name = \"x\"", "0 = TS 4 2 1", "歌", "0 = E solo"],
+    "events": ["\t{", "  }", "garbage", "0 = N 0 0", "0 = B 120000", "0 = TS 4", '0 = E "a"b"', "0 = E solo", "0 = E \"", "", "  ", "歌 = E \"x\"", "0 = S 2 0"],
+    "instr": ["  {", "{ ", "\t{", "  }", "} ", "garbage", "0 = N 8 0", "10 = S 64 5", "10 = S 0 5", "10 = S 1 5", "0 = B 120000", "0 = TS 4", '0 = E "section x"', "5 = E two words", "", "  ", "0 = N 0", "歌", "0 = A 5"],
 }
 
 
